@@ -69,8 +69,11 @@ class CacheHistory(Leg):
     shard = 40
 
     def generate(self, rng, n):
-        for _ in range(n):
-            seed_ops = [["NV", False, [], []], ["NV", False, [], []], ["CACHE", True]]
+        for i in range(n):
+            if i % 2:
+                yield {"ops": self.scenario(rng)}
+                continue
+            seed_ops = [["NV", False, [], []], ["NV", rng.choice([False, False, 2]), [], []], ["CACHE", True]]
             nops = rng.randint(8, 26)
             # generate mutators against live objects, interleaving queries
             w = H.World()
@@ -103,6 +106,47 @@ class CacheHistory(Leg):
             finally:
                 w.close()
             yield {"ops": ops}
+
+    def scenario(self, rng):
+        """warm the memo of EVERY vertex, optionally switch the flag off, mutate once or twice through any public
+        mutator, switch the flag on, ask every vertex again: each invalidation obligation is exercised directly"""
+        w = H.World()
+        ops = []
+        try:
+            nv = rng.randint(2, 4)
+            for _ in range(nv):
+                op = ["NV", rng.choice([False, False, False, 2]), [], []]     # 2 = a vertex whose truth value is False
+                w.do(op)
+                ops.append(op)
+            for _ in range(rng.randint(1, 4)):
+                op = ["NE", rng.choice(H.LINK_KINDS), rng.randrange(nv), rng.randrange(nv)]
+                w.do(op)
+                ops.append(op)
+            keys = rng.sample(KEYS[:4], rng.randint(1, 2))
+            ops.append(["CACHE", True])
+            w.do(ops[-1])
+            warm = [["QNB", v, k[0], k[1], k[2]] for v in range(nv) for k in keys]
+            ops += warm
+            if rng.random() < 0.5:
+                ops.append(["CACHE", False])
+                w.do(ops[-1])
+            tags = [t for t in W_CACHE if t not in ("CACHE", "NV", "NU", "UAV")]
+            wts = [W_CACHE[t] for t in tags]
+            k = 0
+            while k < rng.randint(1, 2):
+                op = gen_one(rng, w, tags, wts)
+                if op is None:
+                    continue
+                w.do(op)
+                ops.append(op)
+                k += 1
+            ops.append(["CACHE", True])
+            ops += warm
+            if rng.random() < 0.3:
+                ops.append(["QTR", rng.choice(TRAVS), rng.randrange(nv)])
+        finally:
+            w.close()
+        return ops
 
     def observe(self, case):
         try:
